@@ -7,6 +7,8 @@ package operators
 import (
 	"regexp"
 
+	"github.com/itchyny/rassemble-go"
+
 	"github.com/coreruleset/crs-toolchain/v2/utils"
 )
 
@@ -378,3 +380,20 @@ func SpecPrintable(s string) bool { return utils.SpecPrintableU(s) }
 // regexp/syntax printer can emit (letters i, m, s, U with optional minus signs)
 //@ reglemma[C02] flag-group-pattern-covers-printer: subset(full(`\(\?[-misU]+:`), full(local(operators.Operator.dontUseFlagsForMetaCharacters, flagGroupStartRegexp)))
 //@ reglemma[C02] flag-toggle-pattern-covers-printer: subset(full(`\(\?[-misU]+\)`), full(local(operators.Operator.dontUseFlagsForMetaCharacters, flagsStartRegexp)))
+
+// ---- C19 / C16: the whole-expression simplification validates the expression ---------------------
+// OpaqueParses: the text was accepted (and printed) by rassemble-go / regexp-syntax.
+func OpaqueParses(s string) bool { _, err := rassemble.Join([]string{s}); return err == nil }
+
+//@ extern rassemble.Join
+//@   params xs
+//@   results r err
+//@   ensures implies(err == nil, OpaqueParses(r))
+
+// runSimplificationAssembly: returns only text that the regex parser accepted; a malformed
+// expression (e.g. through a prefix or suffix line) is fatal here, so the later clean-up
+// passes never see an unbalanced expression.
+//@ contract Operator.runSimplificationAssembly
+//@   tags C19 C16
+//@   results r
+//@   ensures validated: OpaqueParses(r)
